@@ -35,6 +35,8 @@ type tierCfg struct {
 	QuickRuns    int // total runs over all workers
 	ThoroughRuns int
 	Workers      int
+	Enum         bool // the check has an enumerated part
+	EnumQuickStride int // quick tier: every n-th index (thorough: every index)
 	Race         bool // additionally build and run a -race worker
 	RaceQuick    int
 	RaceThorough int
@@ -42,6 +44,8 @@ type tierCfg struct {
 }
 
 var tiers = map[string]tierCfg{
+	"C10": {QuickRuns: 3200, ThoroughRuns: 200000, Workers: 16, Enum: true, EnumQuickStride: 7},
+	"C11": {QuickRuns: 3200, ThoroughRuns: 200000, Workers: 16, Enum: true, EnumQuickStride: 7},
 	"C07": {QuickRuns: 6400, ThoroughRuns: 300000, Workers: 16, Race: true, RaceQuick: 400, RaceThorough: 20000},
 }
 
@@ -72,6 +76,10 @@ type WorkerStats struct {
 	Digests    []string       `json:"digests,omitempty"`
 	Stuck      int            `json:"stuck"`
 	Bytes      int            `json:"bytes_delivered"`
+	EnumCount  int            `json:"enum_count"`
+	EnumParams map[string]int `json:"enum_params,omitempty"`
+	EnumRan    int            `json:"enum_ran"`
+	EnumRule   string         `json:"enum_rule,omitempty"`
 }
 
 type FailureRec struct {
@@ -84,6 +92,8 @@ type FailureRec struct {
 	Decisions []json.RawMessage `json:"decisions"`
 	Digest    string            `json:"digest"`
 	Log       string            `json:"log,omitempty"`
+	EnumIndex int               `json:"enum_index"`
+	IsEnum    bool              `json:"is_enum"`
 }
 
 type Replay struct {
@@ -93,6 +103,10 @@ type Replay struct {
 	Worker    int         `json:"worker"`
 	Race      bool        `json:"race"`
 	FailFile  string      `json:"rapid_failfile"` // content
+	EnumIndex int         `json:"enum_index"`
+	IsEnum    bool        `json:"is_enum"`
+	RapidIter int         `json:"rapid_iter"` // process-death replays: iteration that killed the worker
+	Death     string      `json:"death_output,omitempty"`
 	Failure   *FailureRec `json:"failure"`
 	Note      string      `json:"note"`
 }
@@ -209,6 +223,7 @@ type workerResult struct {
 	dir       string
 	timedOut  bool
 	race      bool
+	enum      bool
 }
 
 func runWorker(bin, id string, idx int, rapidSeed uint64, checks int, dir string, extraEnv []string, extraArgs []string, timeout time.Duration) workerResult {
@@ -340,11 +355,36 @@ func cmdCheck(id string, tier string, seed int64, keep bool) int {
 		go func(i int) {
 			defer wg.Done()
 			rs := splitmix(uint64(seed)*1000003+uint64(i)) | 1
-			r := runWorker(bin, id, i, rs, per, filepath.Join(scratch, fmt.Sprintf("w%d", i)), nil, nil, timeout)
+			dir := filepath.Join(scratch, fmt.Sprintf("w%d", i))
+			r := runWorker(bin, id, i, rs, per, dir, []string{"VERIF_ANNOUNCE=" + filepath.Join(dir, "announce")}, nil, timeout)
 			mu.Lock()
 			results = append(results, r)
 			mu.Unlock()
 		}(i)
+	}
+	enumStride, enumCount, enumRan := 0, 0, 0
+	enumRule := ""
+	if cfg.Enum {
+		enumStride = 1
+		if tier == "quick" && cfg.EnumQuickStride > 0 {
+			enumStride = cfg.EnumQuickStride
+		}
+		if v := os.Getenv("VERIF_ENUM_STRIDE"); v != "" {
+			enumStride, _ = strconv.Atoi(v)
+		}
+		nsh := 16
+		for i := 0; i < nsh; i++ {
+			wg.Add(1)
+			go func(i int) {
+				defer wg.Done()
+				dir := filepath.Join(scratch, fmt.Sprintf("e%d", i))
+				r := runWorker(bin, id, 200+i, 1, 1, dir, []string{fmt.Sprintf("VERIF_ENUM=%d:%d:%d", i, nsh, enumStride), "VERIF_ANNOUNCE=" + filepath.Join(dir, "announce")}, nil, time.Hour)
+				r.enum = true
+				mu.Lock()
+				results = append(results, r)
+				mu.Unlock()
+			}(i)
+		}
 	}
 	if cfg.Race && raceTotal > 0 {
 		rw := 4
@@ -366,6 +406,8 @@ func cmdCheck(id string, tier string, seed int64, keep bool) int {
 	wg.Wait()
 	sort.Slice(results, func(i, j int) bool { return results[i].idx < results[j].idx })
 
+	exit := 0
+	violations := 0
 	// aggregate
 	agg := &WorkerStats{Check: id, Faults: map[string]int{}, Probes: map[string]int{}, Known: map[string]int{}}
 	scheds := map[string]bool{}
@@ -374,11 +416,23 @@ func cmdCheck(id string, tier string, seed int64, keep bool) int {
 	raceReports := []string{}
 	for _, r := range results {
 		if r.stats == nil {
+			if v := confirmDeath(id, seed, bin, scratch, r); v != "" {
+				fmt.Printf("VIOLATION property=%s replay=%s\n  class=process_death the worker process was killed by the system under test (see death_output in the replay file)\n", id, v)
+				violations++
+				exit = 1
+				continue
+			}
 			trouble = append(trouble, fmt.Sprintf("worker %d produced no statistics (%v):\n%s", r.idx, r.err, tail(r.output, 3000)))
 			continue
 		}
 		st := r.stats
 		agg.Runs += st.Runs
+		if r.enum {
+			enumCount = st.EnumCount
+			agg.EnumParams = st.EnumParams
+			enumRan += st.EnumRan
+			enumRule = st.EnumRule
+		}
 		agg.Rule, agg.Level, agg.Engine = st.Rule, st.Level, st.Engine
 		agg.Nontrivial += st.Nontrivial
 		agg.Steps += st.Steps
@@ -412,8 +466,6 @@ func cmdCheck(id string, tier string, seed int64, keep bool) int {
 		}
 	}
 
-	exit := 0
-	violations := 0
 	// confirm each failure by replaying its fail file in a fresh process
 	seenClass := map[string]bool{}
 	for _, r := range failures {
@@ -426,6 +478,23 @@ func cmdCheck(id string, tier string, seed int64, keep bool) int {
 			continue
 		}
 		seenClass[f.Class+"|"+f.Sig] = true
+		if f.IsEnum {
+			rr := runWorker(bin, id, 900+r.idx, 1, 1, filepath.Join(scratch, fmt.Sprintf("confirm%d", r.idx)), []string{fmt.Sprintf("VERIF_ENUM=index:%d", f.EnumIndex)}, nil, 10*time.Minute)
+			if rr.stats == nil || !rr.stats.Failed || rr.stats.Failure == nil || rr.stats.Failure.Class != f.Class {
+				trouble = append(trouble, fmt.Sprintf("DIVERGENCE: enumerated case %d (%s: %s) did not reproduce in a fresh process", f.EnumIndex, f.Class, f.Msg))
+				continue
+			}
+			rp := Replay{Property: id, Seed: seed, Worker: r.idx, IsEnum: true, EnumIndex: f.EnumIndex, Failure: rr.stats.Failure, Note: "replay: verif replay <this file> re-runs enumerated case enum_index"}
+			dir := filepath.Join(verifDir, "replays", id)
+			os.MkdirAll(dir, 0o755)
+			path := filepath.Join(dir, fmt.Sprintf("%s-enum%d-%s.json", id, f.EnumIndex, sanitize(f.Class)))
+			b, _ := json.MarshalIndent(rp, "", " ")
+			os.WriteFile(path, b, 0o644)
+			fmt.Printf("VIOLATION property=%s replay=%s\n  class=%s %s\n", id, path, f.Class, f.Msg)
+			violations++
+			exit = 1
+			continue
+		}
 		ff := findFailFile(r.dir)
 		if ff == "" {
 			trouble = append(trouble, fmt.Sprintf("worker %d: violation %q but no rapid fail file:\n%s", r.idx, f.Msg, tail(r.output, 2000)))
@@ -490,7 +559,8 @@ func cmdCheck(id string, tier string, seed int64, keep bool) int {
 		}
 	}
 	wall := time.Since(start).Seconds()
-	writeEvidence(id, tier, seed, agg, len(scheds), wall, buildS, violations, workers)
+	agg.EnumCount, agg.EnumRan, agg.EnumRule = enumCount, enumRan, enumRule
+	writeEvidence(id, tier, seed, agg, len(scheds), wall, buildS, violations, workers, enumStride)
 	fmt.Printf("check %s tier=%s seed=%d: runs=%d nontrivial=%d distinct_schedules=%d sim_time=%.0fs wall=%.1fs (build %.1fs) violations=%d known=%v exit=%d\n",
 		id, tier, seed, agg.Runs, agg.Nontrivial, len(scheds), float64(agg.SimTimeMS)/1000, wall, buildS, violations, agg.Known, exit)
 	return exit
@@ -552,6 +622,28 @@ func cmdReplay(path string) int {
 	}
 	scratch, bin, raceBin := prepare(rp.Property+"-replay", rp.Race)
 	defer os.RemoveAll(scratch)
+	if rp.IsEnum || rp.Death != "" {
+		var env, args []string
+		checks := 1
+		rs := uint64(1)
+		if rp.IsEnum {
+			env = []string{fmt.Sprintf("VERIF_ENUM=index:%d", rp.EnumIndex)}
+		} else {
+			checks = rp.RapidIter + 1
+			rs = rp.RapidSeed
+		}
+		r := runWorker(bin, rp.Property, 0, rs, checks, filepath.Join(scratch, "w0"), env, args, 20*time.Minute)
+		if r.stats == nil {
+			fmt.Printf("VIOLATION property=%s replay=%s\n  class=process_death the worker process died:\n%s\n", rp.Property, path, tail(r.output, 2500))
+			return 1
+		}
+		if r.stats.Failed && r.stats.Failure != nil {
+			fmt.Printf("VIOLATION property=%s replay=%s\n  class=%s %s\n", rp.Property, path, r.stats.Failure.Class, r.stats.Failure.Msg)
+			return 1
+		}
+		fmt.Printf("replay of %s: no violation on the current tree\n", path)
+		return 0
+	}
 	ff := filepath.Join(scratch, "replay.fail")
 	os.WriteFile(ff, []byte(rp.FailFile), 0o644)
 	wbin := bin
